@@ -28,10 +28,15 @@ FlagSound(a) == ~a.modified => ~a.changed
 Fixpoint(a) == \E x \in DOMAIN a.rounds : x <= a.size + 1 /\ ~a.rounds[x].modified /\ ~a.rounds[x].changed
 NoDamage(a) == a.invariantsOK /\ (a.sortedBefore => a.sortedAfter) /\ a.namesOK
 AnalysisOnly(a) == a.analysis => ~a.changed
+\* functionalize(pass): whatever the wrapped pass is (in place, destructive, a sequence that starts with a
+\* side-effect-only pass, a pass manager), the caller's model serializes as before and the result is another object.
+\* funcTried = the wrapper was applied in this record, funcRaised = it raised (nothing to judge then)
+Functionalized(a) == (a.funcTried /\ ~a.funcRaised) => (a.funcInputSame /\ a.funcFresh)
 ContractBroken(a) ==
   (IF Identity(a) THEN <<>> ELSE <<"Identity">>) \o (IF FlagSound(a) THEN <<>> ELSE <<"FlagSound">>)
   \o (IF Fixpoint(a) THEN <<>> ELSE <<"Fixpoint">>) \o (IF NoDamage(a) THEN <<>> ELSE <<"NoDamage">>)
   \o (IF AnalysisOnly(a) THEN <<>> ELSE <<"AnalysisOnly">>)
+  \o (IF Functionalized(a) THEN <<>> ELSE <<"Functionalized">>)
 
 Report ==
   /\ (phase = "pairs" /\ k > 0) =>
